@@ -173,7 +173,7 @@ def search(ctx):
 def replay(ctx, payload):
     c = payload.get("case", payload)
     import random
-    if c.get("kind") == "multidoc":
+    if c.get("kind") in ("multidoc", "multidoc-sequence"):
         from harness import multidoc
         return multidoc.replay("C03", c)
     if c["profile"] == "values":
